@@ -73,7 +73,28 @@ func bigIndexable() []hpack.HeaderField {
 	return l
 }
 
+// sizedList: fid 1000+n is the one-field list {"x-z": n times '~'}.  '~' has a 13-bit Huffman
+// code, so every encoder writes the value raw, and an n-octet value is never indexed: the
+// encoded block is n + a few octets whatever the table state - used to place re-encoded blocks
+// around the max frame size boundary.
+func sizedList(n int) []hpack.HeaderField {
+	return []hpack.HeaderField{{Name: "x-z", Value: strings.Repeat("~", n)}}
+}
+
+func fieldList(fid int) ([]hpack.HeaderField, bool) {
+	if fid >= 1000 && fid < 1000+200000 {
+		return sizedList(fid - 1000), true
+	}
+	if fid < 0 || fid >= len(FieldLists) {
+		return nil, false
+	}
+	return FieldLists[fid], true
+}
+
 func fidOf(fs []hpack.HeaderField) int {
+	if len(fs) == 1 && fs[0].Name == "x-z" && strings.Trim(fs[0].Value, "~") == "" {
+		return 1000 + len(fs[0].Value)
+	}
 	for i, l := range FieldLists {
 		if len(l) != len(fs) {
 			continue
@@ -286,11 +307,12 @@ func (e *Endpoint) Frame(tok string) (raw []byte, open bool, ok bool) {
 		} else {
 			eh, pad, fid, cut = f[1] == "1", f[3], atoi(f[4]), atoi(f[5])
 		}
-		if fid < 0 || fid >= len(FieldLists) {
+		fl, okf := fieldList(fid)
+		if !okf {
 			return nil, false, false
 		}
 		e.encBuf.Reset()
-		for _, h := range FieldLists[fid] {
+		for _, h := range fl {
 			e.enc.WriteField(h)
 		}
 		block := append([]byte(nil), e.encBuf.Bytes()...)
